@@ -157,6 +157,7 @@ type mstate struct {
 	files    map[string]*beh   // name -> file behaviour (nil = absent)
 	isDir    map[string]bool
 	preload  map[string]*beh
+	inits    map[string]*beh // name -> behaviour of <name>/init.lua (found by the second template when <name>.lua is absent)
 	modTab   map[string]string // name -> descriptor of the table module(name) created (it stays in the global)
 }
 
@@ -200,6 +201,8 @@ func (m *modelRun) require(name string) (ok bool, vals []string, errK string) {
 		// the searcher fails while loading: no sentinel has been planted yet
 		return false, nil, "fail"
 	} else if f := st.files[name]; f != nil {
+		b = f
+	} else if f := st.inits[name]; f != nil {
 		b = f
 	} else {
 		return false, nil, "notfound"
@@ -306,7 +309,7 @@ func (e *Engine) Run(t *core.Tape, cfg *core.Config, st *core.Stats) (viol *core
 	}
 	pathVal := filepath.Join(dir, "?.lua") + ";" + filepath.Join(dir, "?", "init.lua") + ";" + filepath.Join(plain, "?.lua") + ";" // and an empty template at the end
 	L.SetField(L.GetGlobal("package"), "path", lua.LString(pathVal))
-	ms := &mstate{loaded: map[string]string{}, poisoned: map[string]bool{}, files: map[string]*beh{}, isDir: map[string]bool{}, preload: map[string]*beh{}, modTab: map[string]string{}}
+	ms := &mstate{loaded: map[string]string{}, poisoned: map[string]bool{}, files: map[string]*beh{}, isDir: map[string]bool{}, preload: map[string]*beh{}, inits: map[string]*beh{}, modTab: map[string]string{}}
 	cnt := 0
 	ver := 0
 	var log []string
@@ -570,6 +573,19 @@ func (e *Engine) Run(t *core.Tape, cfg *core.Config, st *core.Stats) (viol *core
 				st.Probe("nested_loop_reported")
 			}
 		case 1: // write a module file
+			if !reduced && name != "a" && !strings.Contains(name, ".") && t.Choose(6) == 0 {
+				// the module as a directory with an init.lua (found by the second template, after <name>.lua)
+				b := drawBeh(name, reduced)
+				ip := filepath.Join(dir, fileKey(name), "init.lua")
+				os.MkdirAll(filepath.Dir(ip), 0o755)
+				if err := os.WriteFile(ip, []byte("do\n"+body(name, b)+"end\n"), 0o600); err != nil {
+					panic(err)
+				}
+				ms.inits[name] = b
+				log = append(log, fmt.Sprintf("write %s/init.lua: %s", fileKey(name), b))
+				st.Probe("module_as_init_lua")
+				continue
+			}
 			b := drawBeh(name, reduced)
 			ms.isDir[name] = false
 			os.RemoveAll(fpath)
